@@ -64,7 +64,7 @@ var regModel = porcupine.Model{
 }
 
 type concStats struct {
-	runs, ops, compactions, yields int
+	runs, ops, compactions, yields, scanned int
 }
 
 // c10ScanAcrossUnmap returns the text of a fault or of a wrong pair, or "".
@@ -186,6 +186,22 @@ func concRun(r *rng, fsys fs.FileSystem, dir string, nGor, nKeys, opsPer int, wi
 		}
 	}
 	var countViol []string
+	// every value that was ever handed to Put, per key (recorded BEFORE the call): what a scan may return
+	var everMu sync.Mutex
+	ever := map[string]map[string]bool{}
+	noteValue := func(k, v string) {
+		everMu.Lock()
+		if ever[k] == nil {
+			ever[k] = map[string]bool{}
+		}
+		ever[k][v] = true
+		everMu.Unlock()
+	}
+	for i := 0; i < cold; i++ {
+		noteValue(fmt.Sprintf("cold%d", i), strings.Repeat("c", 40))
+	}
+	var scanViol []string
+	var scanned int64
 	for g := 0; g < nGor; g++ {
 		wg.Add(1)
 		gr := r.fork()
@@ -198,6 +214,7 @@ func concRun(r *rng, fsys fs.FileSystem, dir string, nGor, nKeys, opsPer int, wi
 				switch x := gr.intn(100); {
 				case x < 35:
 					v := fmt.Sprintf("%d.%d.%s", g, i, strings.Repeat("x", gr.intn(80)))
+					noteValue(string(k), v)
 					if err := db.Put(k, []byte(v)); err == nil {
 						record(g, string(k), regIn{0, v}, call, regOut{})
 					}
@@ -228,6 +245,54 @@ func concRun(r *rng, fsys fs.FileSystem, dir string, nGor, nKeys, opsPer int, wi
 			}
 		}(g)
 	}
+	// a scanner of its own: Items scans that run ALONGSIDE Compact (the background goroutine below runs
+	// its scans and compactions one after the other). Next must not fail or panic, and every pair it
+	// returns must be a key of the workload with a value that was put for that key.
+	wg.Add(1)
+	sc := r.fork()
+	go func() {
+		defer wg.Done()
+		defer guard("scanner (Items / Next alongside Compact)")
+		for {
+			select {
+			case <-stop:
+				return
+			default:
+			}
+			it := db.Items()
+			for n := 0; n < 100000; n++ {
+				k, v, err := it.Next()
+				if err == pogreb.ErrIterationDone {
+					break
+				}
+				if err != nil {
+					if !withClose {
+						mu.Lock()
+						if len(scanViol) < 3 {
+							scanViol = append(scanViol, "Next returned the error "+err.Error())
+						}
+						mu.Unlock()
+					}
+					break
+				}
+				atomic.AddInt64(&scanned, 1)
+				everMu.Lock()
+				ok := ever[string(k)][string(v)]
+				everMu.Unlock()
+				if !ok {
+					mu.Lock()
+					if len(scanViol) < 3 {
+						scanViol = append(scanViol, fmt.Sprintf("Next returned (%q, %q): never put for that key", clip(string(k)), clip(string(v))))
+					}
+					mu.Unlock()
+				}
+				if sc.chance(30) {
+					// a pause between two Next calls: compaction moves on in the meantime
+					time.Sleep(time.Duration(20+sc.intn(200)) * time.Microsecond)
+				}
+			}
+		}
+	}()
 	// background: Compact, Sync, Count, Items, Backup, FileSize, Metrics
 	wg.Add(1)
 	bg := r.fork()
@@ -354,6 +419,11 @@ func concRun(r *rng, fsys fs.FileSystem, dir string, nGor, nKeys, opsPer int, wi
 	for _, p := range panics {
 		res.Findings = append(res.Findings, &Finding{Kind: "spec", Case: name, Cmd: "concurrent workload", Impl: []string{clip(p)}, Expected: []string{"no panic, no fault"}, Program: []string{}})
 	}
+	for _, c := range scanViol {
+		res.Findings = append(res.Findings, &Finding{Kind: "spec", Case: name, Cmd: "Items scan alongside Compact and writers", Impl: []string{c},
+			Expected: []string{"every pair returned is a key with a value that was put for it; no error"}, Program: []string{}})
+	}
+	st.scanned += int(scanned)
 	for _, c := range countViol {
 		res.Findings = append(res.Findings, &Finding{Kind: "spec", Case: name, Cmd: "Count", Impl: []string{c}, Expected: []string{"Count within bounds"}, Program: []string{}})
 	}
@@ -527,6 +597,7 @@ func genC07(r *rng, tier string, res *Result) {
 	res.Tags["operations_in_checked_histories"] = st.ops
 	res.Tags["compactions_that_removed_segments"] = st.compactions
 	res.Tags["compaction_yield_points_hit"] = st.yields
+	res.Tags["pairs_returned_by_scans_alongside_compaction"] = st.scanned
 	res.Samples = append(res.Samples, []byte(`"2-7 goroutines x 40-100 ops on 2-5 keys + background Compact/Sync/Count/Items/Backup; per-key porcupine check"`))
 	// interleavings of ATOMIC STEPS, executed deterministically: Compact stepped lock section by lock
 	// section with Puts of new keys (index splits) in the windows; the history is sequential, the
@@ -630,10 +701,108 @@ func genC10(r *rng, tier string, res *Result) {
 	if bytes.Contains(buf, []byte("startBackgroundWorker")) {
 		res.Findings = append(res.Findings, &Finding{Kind: "spec", Case: "C10", Cmd: "goroutines after Close", Impl: []string{"background worker still running after Close"}, Expected: []string{"no goroutine of the database left"}, Program: []string{}})
 	}
+	// Close while a BACKGROUND compaction is in flight (parked at one of its yield points, outside the
+	// database lock): Close may return only after the compaction has finished -- whatever runs it is a
+	// goroutine started by the database
+	for i := 0; i < scale(tier, 4, 30); i++ {
+		if what := c10CloseDuringBackgroundCompaction(r); what != "" {
+			if what == "no compaction" {
+				res.Tags["background_compaction_never_started"]++
+				continue
+			}
+			res.Findings = append(res.Findings, &Finding{Kind: "spec", Case: fmt.Sprintf("C10/close-during-background-compaction/%d", i), Cmd: "Close while the background compaction is parked between two of its steps",
+				Impl: []string{clip(what)}, Expected: []string{"Close waits for the compaction; after Close returns no goroutine started by the database is left running"},
+				Program: []string{"open (BackgroundCompactionInterval = 1 ms, 1 KiB segments)", "overwrite one key 120 times", "wait until the background compaction reaches a yield point; hold it there", "Close"}})
+			break
+		}
+		res.Tags["closes_during_a_background_compaction"]++
+	}
 	res.Steps = st.ops
 	res.Tags["runs_with_close_racing"] = n / 2
 	res.Tags["compaction_yield_points_hit"] = st.yields
 	res.SpecChecked = n
 	res.Samples = append(res.Samples, []byte(`"2-7 goroutines on OSMMap/OS/harness FS, all public methods, Close racing in every second run, SetPanicOnFault"`))
 	_ = interp.Hex
+}
+
+// c10CloseDuringBackgroundCompaction returns "" if Close waited for the background compaction,
+// "no compaction" if none started, otherwise a description of what was observed.
+func c10CloseDuringBackgroundCompaction(r *rng) string {
+	t := tfs.New()
+	o := &pogreb.Options{FileSystem: t, BackgroundCompactionInterval: time.Millisecond}
+	pogreb.VerifSetThresholds(o, 1024, 512, math.Float32frombits(fragBits(0.01)))
+	parked := make(chan string, 1)
+	release := make(chan struct{})
+	var once sync.Once
+	skip := r.intn(4) // park at the first, second, ... yield point of the compaction
+	var seen int64
+	pogreb.VerifYield = func(point string) {
+		if !strings.HasPrefix(point, "compact.") {
+			return
+		}
+		if int(atomic.AddInt64(&seen, 1)) <= skip {
+			return
+		}
+		once.Do(func() { parked <- point })
+		<-release
+	}
+	defer func() { pogreb.VerifYield = nil }()
+	db, err := pogreb.Open("db", o)
+	if err != nil {
+		close(release)
+		return "no compaction"
+	}
+	for j := 0; j < 120; j++ {
+		_ = db.Put([]byte("the-key"), []byte(strings.Repeat("v", 30+r.intn(30))))
+	}
+	var at string
+	select {
+	case at = <-parked:
+	case <-time.After(5 * time.Second):
+		close(release)
+		_ = db.Close()
+		return "no compaction"
+	}
+	closed := make(chan error, 1)
+	go func() { closed <- db.Close() }()
+	early := ""
+	select {
+	case err := <-closed:
+		buf := make([]byte, 1<<18)
+		buf = buf[:runtime.Stack(buf, true)]
+		var frames []string
+		for _, l := range strings.Split(string(buf), "\n") {
+			if strings.Contains(l, "pogreb.(*DB)") {
+				frames = append(frames, strings.TrimSpace(l))
+			}
+		}
+		early = fmt.Sprintf("Close returned %v while the background compaction was parked at %s; goroutines of the database still running: %s", err, at, strings.Join(frames, " <- "))
+		closed <- err
+	case <-time.After(300 * time.Millisecond):
+	}
+	close(release)
+	select {
+	case <-closed:
+	case <-time.After(20 * time.Second):
+		return "Close does not return after the background compaction was released (20 s)"
+	}
+	if early != "" {
+		return early
+	}
+	time.Sleep(20 * time.Millisecond)
+	buf := make([]byte, 1<<18)
+	buf = buf[:runtime.Stack(buf, true)]
+	if bytes.Contains(buf, []byte("pogreb.(*DB).")) {
+		return "a goroutine of the database is still running after Close returned"
+	}
+	// the directory is cleanly closed and complete
+	db2, err := pogreb.Open("db", &pogreb.Options{FileSystem: t})
+	if err != nil {
+		return "reopen after Close: " + err.Error()
+	}
+	defer db2.Close()
+	if v, err := db2.Get([]byte("the-key")); err != nil || v == nil {
+		return fmt.Sprintf("after Close and reopen Get(the-key) = %q, %v", clip(string(v)), err)
+	}
+	return ""
 }
